@@ -496,7 +496,7 @@ def main(tier: str, seed: int):
     sess.assume("NaN/inf delta *inputs* and target ids/attrs containing ':' are outside the generated domain")
     sess.assume("the cooldown clause is judged on the merged provenance (smallest contributing op index), as the documented pipeline merges before the cooldown step; a target all of whose contributors are in cooldown must never be approved")
     sess.assume("reference comparison tolerance is 1e-9 x sum|v_i| per merged target (floating-point merge), vacuous when the running sum can overflow; order independence is always exact")
-    total = 3000 if tier == "quick" else 200000
+    total = 3000 if tier == "quick" else 600000
     nchunks = par.NWORK * (1 if tier == "quick" else 4)
     per = total // nchunks
     for ex in par.pmap(_chunk, [(tier, seed, i, per) for i in range(nchunks)]):
